@@ -238,11 +238,26 @@ func Main(id string) {
 	}
 	negativeForks := 0
 	var auditedTotal int64
+	// thorough: every configuration gets an equal share of the time that is left for Search 1 when its turn comes
+	// (with one shared deadline the first configuration used all of it and the others stayed at depth 0)
+	part := PartFraction
+	if part <= 0 {
+		part = 1
+	}
+	nRun := 0
+	for _, nc := range cfgs {
+		if *cfgFlag == "" || nc.Name == *cfgFlag {
+			nRun++
+		}
+	}
+	ci := 0
 	for _, nc := range cfgs {
 		if *cfgFlag != "" && nc.Name != *cfgFlag {
 			continue
 		}
 		nc := nc
+		ci++
+		shareEnd := part * float64(ci) / float64(nRun)
 		d := depth
 		if nc.Negative {
 			d = 1 // the Byzantine node leads round 0 of the control's root height: one round suffices
@@ -323,8 +338,11 @@ func Main(id string) {
 				}
 			},
 			Stop: func() bool {
-				if nc.ReplicaOnly && PartFraction > 0 && r.ExpiredFrac(PartFraction*0.5) {
+				if nc.ReplicaOnly && r.Quick() && PartFraction > 0 && r.ExpiredFrac(PartFraction*0.5) {
 					return true // leave at least half of the part's time to the placement in which the Byzantine node leads
+				}
+				if !r.Quick() && !nc.Negative && r.ExpiredFrac(shareEnd) {
+					return true
 				}
 				return stop()
 			},
@@ -398,6 +416,9 @@ func livenessPass(r *mc.Run, states []stateRec, cov map[string]any) {
 				continue // no certificate to report and the adversary does not lead next: the same as mode 2 until one appears (kept where it leads)
 			}
 			w, ok := states[i].w.Clone(), true
+			if cloneUntrusted.Load() {
+				w, ok = Replay(nc.Cfg, states[i].path, false)
+			}
 			// a prefix in which an honest node already committed has its block: after GST the
 			// committed certificate is gossiped and adopted through the block path (C02's gate)
 			if !ok || w.Info().Terminal || len(w.DistinctCommits()) > 0 {
@@ -479,6 +500,11 @@ func evidencePass(r *mc.Run, states []stateRec, cov map[string]any) {
 	var pairs, implicated, withConflict int
 	done := mc.ParallelFor(len(states), 0, stop, func(i int) {
 		w := states[i].w.Clone()
+		if cloneUntrusted.Load() {
+			if nc, found := ConfigByName(states[i].cfg); found {
+				w, _ = Replay(nc.Cfg, states[i].path, false)
+			}
+		}
 		vs, p, im := w.EvidenceViols(states[i].cfg, states[i].path)
 		mu.Lock()
 		pairs += p
